@@ -1,7 +1,7 @@
 """Correspondence of whole queries: the real library (Go runner) against the Lean model (driver)."""
 import json
 from .common import run_go, run_lean, dec_val, canon, as_multiset, enc_val, load_findings
-from .sqlgen import query_sql
+from .sqlgen import query_sql, item
 
 
 def mk_case(doc, q, mode="seq", wrapped=False, pg=False, arr=False, consts=None, sql=None, tag=None,
@@ -149,6 +149,101 @@ def _wrap_tables(q):
     return q2 if ok[0] else None
 
 
+RENAME_POOL = ["key", "name", "value", "status", "date", "level", "code", "type", "user", "time", "data", "createdAt", "OrderId",
+               "zipCode", "Index", "group2"]
+
+
+def _rename_columns(c, rnd):
+    """the same case with the keys of its ROWS (not the top-level table names) renamed consistently in the document and in the
+    query: SQL keywords and camelCase names instead of the generators' own short names.  Column names are data.  -> (doc, q) or
+    None when the query holds text the renaming cannot see into (selector texts)."""
+    import copy
+    doc, q = c["doc"], c["q"]
+    top = set(doc.keys())
+    reserved = set(top) | {"<-", "*", "root", "dual", "sv"}
+    rowkeys = set()
+
+    def keys_of(v, depth):
+        if isinstance(v, dict):
+            for k, x in v.items():
+                if depth >= 1:
+                    rowkeys.add(k)
+                keys_of(x, depth + 1)
+        elif isinstance(v, list):
+            for x in v:
+                keys_of(x, depth)
+    keys_of(doc, 0)
+    bad = [False]
+
+    def scan(n):
+        if not isinstance(n, list) or not n:
+            return
+        h = n[0]
+        if h in ("tablesel", "selc"):
+            bad[0] = True
+        elif h == "table" and len(n) >= 4:
+            reserved.update(x for x in (n[2], n[3]) if isinstance(x, str))
+            if isinstance(n[1], list) and n[1]:
+                reserved.add(n[1][0])
+        elif h == "derived" and len(n) >= 3 and isinstance(n[2], str):
+            reserved.add(n[2])
+        elif h == "item" and len(n) >= 4 and isinstance(n[3], str):
+            if n[3]:
+                reserved.add(n[3])
+            elif not (isinstance(n[1], list) and n[1] and n[1][0] == "col"):
+                bad[0] = True      # an un-aliased call is keyed by the parser's printing of its text (which quotes keywords)
+        elif h in ("select", "union") and isinstance(n[1], list):
+            for ct in n[1]:
+                if isinstance(ct, list) and len(ct) == 2 and isinstance(ct[0], str):
+                    reserved.add(ct[0])
+        for x in n:
+            scan(x)
+    scan(q)
+    if bad[0]:
+        return None
+    cand = sorted(k for k in rowkeys if k not in reserved and isinstance(k, str) and k.isidentifier())
+    if not cand:
+        return None
+    pool = [p for p in RENAME_POOL if p not in rowkeys and p not in reserved]
+    rnd.shuffle(pool)
+    mp = dict(zip(cand, pool))
+    if not mp:
+        return None
+
+    def ren_doc(v, depth):
+        if isinstance(v, dict):
+            return {(mp.get(k, k) if depth >= 1 else k): ren_doc(x, depth + 1) for k, x in v.items()}
+        if isinstance(v, list):
+            return [ren_doc(x, depth) for x in v]
+        return v
+
+    def ren(n, in_select=None):
+        if not isinstance(n, list) or not n:
+            return n
+        h = n[0]
+        if h == "col" and len(n) >= 2 and isinstance(n[1], list):
+            return ["col", [mp.get(p, p) for p in n[1]]] + [copy.deepcopy(x) for x in n[2:]]
+        if h == "table" and len(n) >= 4 and isinstance(n[1], list):
+            return ["table", n[1][:1] + [mp.get(p, p) for p in n[1][1:]]] + [copy.deepcopy(x) for x in n[2:]]
+        if h == "item" and len(n) >= 4:
+            e2 = ren(n[1])
+            key = n[2] if n[3] else item(e2, "")[2]
+            return ["item", e2, key, n[3]] + [copy.deepcopy(x) for x in n[4:]]
+        if h == "select" and len(n) >= 11:
+            m = [ren(x) for x in n]
+            m[6] = [[".".join(mp.get(p, p) for p in g[1]), [mp.get(p, p) for p in g[1]]] for g in n[6]]
+            m[8] = [[[mp.get(p, p) for p in o[0]]] + list(o[1:]) for o in n[8]]
+            return m
+        if h == "union" and len(n) >= 8:
+            m = [ren(x) for x in n]
+            m[5] = [[[mp.get(p, p) for p in o[0]]] + list(o[1:]) for o in n[5]]
+            return m
+        if h == "str":
+            return list(n)
+        return [ren(x) for x in n]
+    return ren_doc(doc, 0), ren(q)
+
+
 def context_variants(cases, seed):
     """Statement-position and repetition variants of a sample of the cases (about 1 in 10): the same query as a CTE body
     read through `SELECT *`, as both branches of a UNION ALL, and simply repeated later in the same process.  Defects that
@@ -161,7 +256,12 @@ def context_variants(cases, seed):
         if c.get("q") is None or c["mode"] not in ("seq", "multiset") or rnd.random() > 0.1:
             continue
         q = c["q"]
-        kind = rnd.choice(["cte", "union", "repeat", "wrapped"])
+        kind = rnd.choice(["cte", "union", "repeat", "wrapped", "rename", "rename"])
+        renamed = None
+        if kind == "rename":
+            renamed = None if (c.get("order_keys") or c.get("source_rows") or c.get("consts") or c.get("vars")) else _rename_columns(c, rnd)
+            if renamed is None:
+                kind = "repeat"
         if kind == "wrapped" and (c.get("wrapped") or _wrap_tables(q) is None):
             kind = "repeat"
         if kind == "union" and not (q[0] == "select" and not q[1] and not q[8] and q[9] is None and q[10] is None):
@@ -178,6 +278,8 @@ def context_variants(cases, seed):
         elif kind == "wrapped":
             q2 = _wrap_tables(q)
             c2["wrapped"] = True
+        elif kind == "rename":
+            c2["doc"], q2 = renamed
         else:
             q2 = q
         try:
@@ -200,7 +302,7 @@ def run_cases(chk, cases, nontrivial=None, known_switch_ids=None, label="", vari
         chk.cov["context_variants"] = chk.cov.get("context_variants", 0) + len(extra)
         chk.cov["context_variants_rule"] = ("about 1 in 10 generated queries is additionally run as a CTE body read through SELECT *, "
                                             "as both branches of a UNION ALL, under Wrapped() with every table addressed as root.<table>, "
-                                            "or simply a second time in the same process")
+                                            "with the keys of its rows renamed to SQL keywords / camelCase names in document and query, or simply a second time in the same process")
         cases = list(cases) + extra
     gos = run_go([go_req(c) for c in cases])
     leans = run_lean([lean_req(c) for c in cases])
